@@ -551,6 +551,9 @@ func scriptsVia(t *testing.T, adapter string) {
 	if os.Getenv("VERIF_TIER") == "thorough" {
 		maxLen = 5
 	}
+	if adapter == "bulk" && maxLen > 4 {
+		maxLen = 4 // every state check carries 640 more Ys: one length shorter keeps the tier within its time
+	}
 	all := enumerate(maxLen)
 	shard, _ := strconv.Atoi(os.Getenv("VERIF_SHARD"))
 	n, _ := strconv.Atoi(os.Getenv("VERIF_NSHARDS"))
